@@ -189,6 +189,8 @@ theorem evalPts_eq_val : ∀ (s : Shape) (pts : List Pt), evalPts s pts = pts.ma
   intro s
   induction s with
   | circle r cx cy => intro pts; simp [evalPts]
+  | disk r => intro pts; simp [evalPts]
+  | halfplane gt a b c => intro pts; simp [evalPts]
   | ellipse cM sM cm sm cx cy mn => intro pts; simp [evalPts]
   | rect hx hy cx cy => intro pts; simp [evalPts]
   | regpoly even r a dirs cx cy => intro pts; rw [evalPts, regpolySlow_eq]
@@ -266,6 +268,8 @@ theorem one_sub_b2r_cases (b : Bool) : 1 - b2r b = 0 ∨ 1 - b2r b = 1 := by
 
 inductive Binary : Shape → Prop
   | circle (r cx cy : Rat) : Binary (.circle r cx cy)
+  | disk (r : Rat) : Binary (.disk r)
+  | halfplane (gt : Bool) (a b c : Rat) : Binary (.halfplane gt a b c)
   | ellipse (cM sM cm sm cx cy mn : Rat) : Binary (.ellipse cM sM cm sm cx cy mn)
   | rect (hx hy cx cy : Rat) : Binary (.rect hx hy cx cy)
   | regpoly (even : Bool) (r a : Rat) (dirs : List (Rat × Rat)) (cx cy : Rat) :
@@ -313,6 +317,8 @@ theorem seg_val_in_unit_interval {segs : List (Pt × Rat)} {a : Shape} {p : Pt}
 theorem binary_val {s : Shape} (h : Binary s) (p : Pt) : val s p = 0 ∨ val s p = 1 := by
   induction h generalizing p with
   | circle r cx cy => exact b2r_cases _
+  | disk r => exact b2r_cases _
+  | halfplane gt a b c => exact b2r_cases _
   | ellipse cM sM cm sm cx cy mn => exact b2r_cases _
   | rect hx hy cx cy => exact b2r_cases _
   | regpoly even r a dirs cx cy => exact b2r_cases _
